@@ -15,7 +15,7 @@ Names == <<"list", "vector", "cons", "concat", "vec", "nth", "first", "rest", "c
            "hash-map", "assoc", "dissoc", "get", "contains?", "keys", "vals", "merge", "rename-keys",
            "get-in", "assoc-in", "update", "update-in", "set", "hash-set",
            "nil?", "true?", "false?", "symbol?", "keyword?", "string?", "number?", "list?", "vector?",
-           "map?", "set?", "sequential?", "fn?", "macro?", "atom?">>
+           "map?", "set?", "sequential?", "fn?", "macro?", "atom?", "split", "type?", "assert", "with-meta">>
 
 \* the first Pool3 values are the ones used for 3-argument calls
 PoolText == <<"[1 2 3]", "{:a 1}", "1", ":a", "nil", "(1 2 3)", "0", "[:a]", "#{:a \"b\"}", "2", "inc", "{:a {:b 1}}",
